@@ -53,6 +53,19 @@ def run(ctx):
         for si, shard in enumerate(split_cases(cases, 2 if len(cases) > 60 else 1)):
             jobs.append({'u': u, 'opts': {} if gi % 5 else {'cse': False}, 'cases': shard, 'seed': ctx.seed + 17 * gi + si, 'n_irr': 6 if q else 30, 'n_sib': 3 if q else 12,
                          'out': os.path.join(tdir, f'g{gi}_{si}.ndjson'), 'prefix': f'g{gi}.{si}'})
+    # graded mode x symbolic operands x history: u*u (coefficients that cancel by VALUE) before u*v on the same complete-grade
+    # key patterns, composite operators in between
+    for gi, u in enumerate([ucfg(sig=[1, 1, 1]), ucfg(sig=[0, 1, 1]), ucfg(2, 0, 1)] + ([] if q else [ucfg(sig=[1, 1]), ucfg(sig=[1, 1, 1, -1]), ucfg(3, 0, 1)])):
+        d_ = len(u['sig']) if u['mode'] == 'sig' else u['p'] + u['q'] + u['r']
+        from kdriver import make_algebra as _mk
+        order_ = list(_mk(u).canon2bin.values())
+        blocks = [list(b_) for b_ in P.grade_blocks(d_, order_) if len(b_) <= 5]
+        cases = []
+        for _ in range(4 if q else 16):
+            K1, K2 = rng.choice(blocks), rng.choice(blocks)
+            cases += [['gp_same', [K1], []], ['gp', [K1, K1], []], ['sw', [K2, K1], []], ['gp', [K2, K1], []], ['op_same', [K1], []], ['op', [K1, K1], []],
+                      ['gp', [K1, K2], []]]
+        jobs.append({'u': u, 'opts': {'graded': True}, 'cases': cases, 'seed': ctx.seed + 901 + gi, 'out': os.path.join(tdir, f'gr{gi}.ndjson'), 'prefix': f'gr{gi}'})
     res = run_jobs(jobs)
     files = [r['out'] for r in res if r['events']]
     skipped = [s for r in res for s in r['skipped']]
